@@ -116,3 +116,56 @@ func VerifC24TCP4() { c24Run(true, false) }
 func VerifC24TCP6() { c24Run(true, true) }
 func VerifC24UDP4() { c24Run(false, false) }
 func VerifC24UDP6() { c24Run(false, true) }
+
+// ---- checksum values, with few symbolic words ----
+
+// c24RFC1071 stands in for checksum.Checksum (assembly on amd64): the folded, not complemented ones-complement sum
+// of big-endian 16-bit words starting from `initial` — the RFC 1071 definition, written out.
+func c24RFC1071(buf []byte, initial uint16) uint16 {
+	sum := uint32(initial)
+	for i := 0; i+1 < len(buf); i += 2 {
+		sum += uint32(buf[i])<<8 | uint32(buf[i+1])
+	}
+	if len(buf)%2 == 1 {
+		sum += uint32(buf[len(buf)-1]) << 8
+	}
+	sum = (sum & 0xffff) + (sum >> 16)
+	sum = (sum & 0xffff) + (sum >> 16)
+	return uint16(sum)
+}
+
+// VerifC24Checksums: a TCP/IPv4 superpacket whose bytes are fixed except the IPv4 ID and the TCP sequence number
+// (three symbolic 16-bit words: within what the solvers decide for ones-complement sums): every segment's IPv4 header
+// checksum and TCP checksum verify.
+func VerifC24Checksums() {
+	pay := verifCase("paylen")
+	gso := verifCase("gso")
+	hdr := 40
+	pkt := make([]byte, hdr+pay)
+	copy(pkt, []byte{0x45, 0x10, 0, 0, 0, 0, 0x40, 0, 64, 6, 0, 0, 10, 1, 2, 3, 10, 9, 8, 7, // IPv4
+		0x30, 0x39, 0x01, 0xbb, 0, 0, 0, 0, 0x11, 0x22, 0x33, 0x44, 0x50, 0x99, 0x20, 0, 0, 0, 0, 0}) // TCP: ports, seq, ack, off=5, flags CWR|ACK|PSH|FIN
+	id := verifU16("ip_id")
+	seq := verifU32("tcp_seq")
+	pkt[4], pkt[5] = byte(id>>8), byte(id)
+	pkt[24], pkt[25], pkt[26], pkt[27] = byte(seq>>24), byte(seq>>16), byte(seq>>8), byte(seq)
+	for i := 0; i < pay; i++ {
+		pkt[hdr+i] = byte(0x61 + i)
+	}
+	var segs []c24Seg
+	err := SegmentTCP(pkt, uint16(hdr), 20, uint16(gso), func(seg []byte) error {
+		segs = append(segs, c24Seg{append([]byte(nil), seg...)})
+		return nil
+	})
+	verifAssert(err == nil && len(segs) == (pay+gso-1)/gso, "segmented")
+	for i := 0; i < 6; i++ {
+		if i >= len(segs) {
+			break
+		}
+		s := segs[i].b
+		verifAssert(c24RFC1071(s[:20], 0) == 0xffff, "every segment's IPv4 header checksum verifies")
+		l4 := len(s) - 20
+		pseudo := []byte{s[12], s[13], s[14], s[15], s[16], s[17], s[18], s[19], 0, 6, byte(l4 >> 8), byte(l4)}
+		verifAssert(c24RFC1071(s[20:], c24RFC1071(pseudo, 0)) == 0xffff, "every segment's TCP checksum verifies over the pseudo-header, header and payload")
+	}
+	verifObserve("segments", uint64(len(segs)))
+}
